@@ -64,6 +64,9 @@ pub struct Merge {
     by_source: String,
     indexed: bool,
     use_index: bool,
+    /// the btree is built before the last fragment is appended (that fragment is un-indexed)
+    #[serde(default)]
+    unindexed_tail: bool,
 }
 
 #[derive(Clone, Debug, Serialize, Deserialize, PartialEq)]
@@ -310,7 +313,11 @@ fn merge_cases(spec: &TableSpec, quick: bool) -> Vec<Merge> {
                     if m.starts_with("update_if") && !sc.contains(&"k") {
                         continue;
                     }
-                    for indexed in [false, true] {
+                    for (indexed, unindexed_tail) in [(false, false), (true, false), (true, true)] {
+                        // an un-indexed tail needs two fragments and no prior history
+                        if unindexed_tail && (spec.frags.len() < 2 || spec.prep != "none") {
+                            continue;
+                        }
                         out.push(Merge {
                             key: key.into(),
                             src_cols: sc.iter().map(|s| s.to_string()).collect(),
@@ -320,6 +327,7 @@ fn merge_cases(spec: &TableSpec, quick: bool) -> Vec<Merge> {
                             by_source: bs.to_string(),
                             indexed,
                             use_index: true,
+                            unindexed_tail,
                         });
                     }
                 }
@@ -344,6 +352,12 @@ fn getter<'a>(names: &'a [String], r: &'a [Cell]) -> impl Fn(&str) -> Cell + 'a 
 }
 
 fn model(rows: &[Row], op: &Op) -> Expect {
+    model_with(rows, op, None)
+}
+
+/// `null_eq_from_uid = Some(u)`: the deviant semantics "a NULL source key matches the NULL-key target
+/// rows with uid >= u" (used only to recognise one known defect, never as the expectation)
+fn model_with(rows: &[Row], op: &Op, null_eq_from_uid: Option<i64>) -> Expect {
     let names = col_names();
     match op {
         Op::Delete { p } => {
@@ -375,7 +389,10 @@ fn model(rows: &[Row], op: &Op) -> Expect {
         Op::Merge(m) => {
             let ki = names.iter().position(|x| *x == m.key).unwrap();
             let ski = m.src_cols.iter().position(|x| *x == m.key).unwrap();
-            let key_eq = |t: &Row, s: &Row| !t[ki].is_null() && !s[ski].is_null() && t[ki] == s[ski];
+            let key_eq = |t: &Row, s: &Row| {
+                (!t[ki].is_null() && !s[ski].is_null() && t[ki] == s[ski])
+                    || (t[ki].is_null() && s[ski].is_null() && null_eq_from_uid.map(|u| t[0].as_i64().unwrap_or(-1) >= u).unwrap_or(false))
+            };
             let mut out = vec![];
             let (mut upd, mut ins, mut del) = (0u64, 0u64, 0u64);
             // ambiguity / fail first: no effect at all
@@ -472,9 +489,19 @@ struct Observed {
     physical: usize,
 }
 
-async fn build_base(spec: &TableSpec, indexed_col: Option<&str>) -> Result<MemStore, String> {
+async fn build_base(spec: &TableSpec, indexed_col: Option<&str>, unindexed_tail: bool) -> Result<MemStore, String> {
     let env = Env::new();
     let o = TOpts { stable_row_ids: spec.stable_row_ids, ..Default::default() };
+    if unindexed_tail {
+        // fragment 0, btree, then the last fragment is appended and stays un-indexed
+        let full = spec.tbl();
+        let head = Tbl { cols: full.cols.clone(), frags: full.frags[..full.frags.len() - 1].to_vec() };
+        let mut ds = create_tbl(&env, URI, &head, &o).await.map_err(|e| format!("create: {e}"))?;
+        let c = indexed_col.ok_or("unindexed_tail without index")?;
+        create_scalar_index(&mut ds, c, "btree", None).await.map_err(|e| format!("create_index: {e}"))?;
+        append_rows(&env, URI, &full.cols, &full.frags[full.frags.len() - 1]).await.map_err(|e| format!("append: {e}"))?;
+        return Ok(env.store);
+    }
     let mut ds = create_tbl(&env, URI, &spec.tbl(), &o).await.map_err(|e| format!("create: {e}"))?;
     match spec.prep.as_str() {
         "none" => {}
@@ -659,6 +686,31 @@ fn op_kind(op: &Op) -> String {
 
 /// `Ok(None)` = counted as explicitly unsupported (not judged)
 fn judge(case: &Case, before: &[Row], obs: &Observed) -> Vec<Violation> {
+    let mut v = judge_inner(case, before, obs);
+    // one known root cause: on the index-based join (btree on the key) NULL keys compare equal
+    // (HashJoin with NullEqualsNull), visible when a NULL-key target row sits in an un-indexed fragment
+    if let Op::Merge(m) = &case.op {
+        if !v.is_empty() && m.indexed && m.unindexed_tail {
+            let tail_start: i64 = case.t.frags[..case.t.frags.len() - 1].iter().map(|f| f.len() as i64).sum();
+            let alt = model_with(before, &case.op, Some(tail_start));
+            let explained = match (&alt, &obs.result) {
+                (Expect::Rows { rows, .. }, Ok(_)) => bag(rows.clone()) == bag(obs.rows.clone()),
+                (Expect::Error(_), Err(_)) => bag(before.to_vec()) == bag(obs.rows.clone()),
+                _ => false,
+            };
+            if explained && alt != model(before, &case.op) {
+                for x in v.iter_mut() {
+                    if ["rows", "unexpected-error", "must-fail", "stats"].contains(&x.oracle.as_str()) {
+                        x.key = "merge/join-based-path/null-keys-match-in-unindexed-fragment".to_string();
+                    }
+                }
+            }
+        }
+    }
+    v
+}
+
+fn judge_inner(case: &Case, before: &[Row], obs: &Observed) -> Vec<Violation> {
     let names = col_names();
     let exp = model(before, &case.op);
     let kind = op_kind(&case.op);
@@ -772,7 +824,7 @@ fn op_text(op: &Op) -> String {
         ),
         Op::Merge(m) => format!(
             "MERGE ON {} source{:?}={} matched={} not_matched={} by_source={} btree={}",
-            m.key, m.src_cols, show(&m.src), m.matched, m.not_matched, m.by_source, m.indexed
+            m.key, m.src_cols, show(&m.src), m.matched, m.not_matched, m.by_source, if m.unindexed_tail { "before-last-fragment" } else if m.indexed { "true" } else { "false" }
         ),
     }
 }
@@ -898,6 +950,12 @@ fn table_ops(spec: &TableSpec, ctx: &Ctx, plan: Plan) -> Vec<Op> {
     let merge_here = plan.merge;
     let ps = preds();
     let mut ops = vec![];
+    // merges first: under a wall cap the merge space of a table is explored before its deletes/updates
+    if merge_here {
+        for m in merge_cases(spec, quick) {
+            ops.push(Op::Merge(m));
+        }
+    }
     for p in &ps {
         ops.push(Op::Delete { p: p.clone() });
     }
@@ -911,18 +969,13 @@ fn table_ops(spec: &TableSpec, ctx: &Ctx, plan: Plan) -> Vec<Op> {
             ops.push(Op::Update { set: s.clone(), p: w.clone() });
         }
     }
-    if merge_here {
-        for m in merge_cases(spec, quick) {
-            ops.push(Op::Merge(m));
-        }
-    }
     ops
 }
 
 fn run_table(spec: &TableSpec, ctx: &Ctx, plan: Plan, budget: &Budget, st: &mut Stats) -> bool {
     let before = spec.model_rows();
     let ops = table_ops(spec, ctx, plan);
-    let plain = match block_on(build_base(spec, None)) {
+    let plain = match block_on(build_base(spec, None, false)) {
         Ok(s) => s,
         Err(e) => {
             st.machinery.push(e);
@@ -936,10 +989,11 @@ fn run_table(spec: &TableSpec, ctx: &Ctx, plan: Plan, budget: &Budget, st: &mut 
         }
         let base = match &op {
             Op::Merge(m) if m.indexed => {
-                if !indexed.contains_key(&m.key) {
-                    match block_on(build_base(spec, Some(&m.key))) {
+                let ik = format!("{}/{}", m.key, m.unindexed_tail);
+                if !indexed.contains_key(&ik) {
+                    match block_on(build_base(spec, Some(&m.key), m.unindexed_tail)) {
                         Ok(s) => {
-                            indexed.insert(m.key.clone(), s);
+                            indexed.insert(ik.clone(), s);
                         }
                         Err(e) => {
                             st.machinery.push(e);
@@ -947,7 +1001,7 @@ fn run_table(spec: &TableSpec, ctx: &Ctx, plan: Plan, budget: &Budget, st: &mut 
                         }
                     }
                 }
-                indexed[&m.key].clone()
+                indexed[&ik].clone()
             }
             _ => plain.clone(),
         };
@@ -962,11 +1016,11 @@ fn replay(ctx: &Ctx, art: &Value) -> Outcome {
     let case: Case = serde_json::from_value(art["case"].clone())
         .unwrap_or_else(|e| vcore::machinery_error(&format!("bad C12 case: {e}")));
     let mut st = new_stats();
-    let idx = match &case.op {
-        Op::Merge(m) if m.indexed => Some(m.key.clone()),
-        _ => None,
+    let (idx, tail) = match &case.op {
+        Op::Merge(m) if m.indexed => (Some(m.key.clone()), m.unindexed_tail),
+        _ => (None, false),
     };
-    let base = block_on(build_base(&case.t, idx.as_deref())).unwrap_or_else(|e| vcore::machinery_error(&e));
+    let base = block_on(build_base(&case.t, idx.as_deref(), tail)).unwrap_or_else(|e| vcore::machinery_error(&e));
     // replay several times: reports the reproduction rate for nondeterministic implementations
     let n = 8;
     let mut failed = 0;
@@ -1039,13 +1093,30 @@ pub fn run(ctx: &Ctx) -> Outcome {
         }
     }
     specs.extend(extra);
+    if quick {
+        // the sorted family holds (NULL | 0) but not (0 | NULL): the NULL key in the last (possibly
+        // un-indexed) fragment, and a 3-row table with NULL keys on both sides
+        let a = |k: Cell| (k, Cell::s("a"));
+        for frags in [
+            vec![vec![a(Cell::I(0))], vec![a(Cell::Null)]],
+            vec![vec![a(Cell::I(1)), a(Cell::Null)], vec![a(Cell::I(0))]],
+            vec![vec![a(Cell::Null)], vec![a(Cell::I(0)), a(Cell::Null)]],
+        ] {
+            specs.push((TableSpec { frags, prep: "none".into(), stable_row_ids: false }, Plan { full_wheres: false, merge: true }));
+        }
+    }
+    // tables with merge_insert first, those with a NULL key in the target before the others
+    specs.sort_by_key(|(s, p)| {
+        let has_null = s.frags.iter().flatten().any(|(k, _)| k.is_null());
+        (!p.merge, !has_null)
+    });
     if ctx.seed != 0 {
         let n = specs.len();
         specs.rotate_left((ctx.seed as usize) % n);
     }
     let n_tables = specs.len();
     let budget = Budget::new(ctx.opts.get("budget").and_then(|b| b.parse().ok()).unwrap_or(ctx.tier.pick(40.0, 840.0)));
-    REPS.store(ctx.tier.pick(3, 3), std::sync::atomic::Ordering::Relaxed);
+    REPS.store(ctx.tier.pick(2, 3), std::sync::atomic::Ordering::Relaxed);
     let results = vcore::par_map(specs, ctx.workers, |_, (spec, plan)| {
         let mut st = new_stats();
         let done = run_table(&spec, ctx, plan, &budget, &mut st);
